@@ -118,6 +118,11 @@ impl<B: Base> ToElements<B> for Pub<B> {
     }
 }
 
+thread_local! {
+    /// number of transition exemptions of the AIR under test (1 = the default)
+    static EXEMPTIONS: std::cell::Cell<usize> = const { std::cell::Cell::new(1) };
+}
+
 struct TestAir<B: Base> {
     context: AirContext<B>,
     specs: Vec<Spec<B>>,
@@ -135,7 +140,10 @@ impl<B: Base> Air for TestAir<B> {
             TransitionConstraintDegree::with_cycles(2, vec![8]),
             TransitionConstraintDegree::with_cycles(1, vec![4]),
         ];
-        Self { context: AirContext::new(trace_info, degrees, pub_inputs.0.len(), options), specs: pub_inputs.0 }
+        let k = EXEMPTIONS.with(|e| e.get());
+        let context = AirContext::new(trace_info, degrees, pub_inputs.0.len(), options);
+        let context = if k == 1 { context } else { context.set_num_transition_exemptions(k) };
+        Self { context, specs: pub_inputs.0 }
     }
 
     fn context(&self) -> &AirContext<B> {
@@ -203,6 +211,7 @@ struct Instance<B: Base, E: FieldElement<BaseField = B>> {
     specs_sorted: Vec<Spec<B>>,
     alpha: Vec<E>,
     beta: Vec<E>,
+    exemptions: usize,
 }
 
 impl<B: Base, E: FieldElement<BaseField = B>> Instance<B, E> {
@@ -220,8 +229,12 @@ impl<B: Base, E: FieldElement<BaseField = B>> Instance<B, E> {
         };
         let (p0, p1, p2) = (periodic(k0::<B>()), periodic(k1::<B>()), periodic(k2::<B>()));
         let c = [tn[0] - t[0] * p0, tn[1] - t[1] * t[0] * p1, tn[2] - t[2] * p2];
-        let last = E::from(self.g.exp(((n - 1) as u64).into()));
-        let z_t = (x.exp((n as u64).into()) - E::ONE) / (x - last);
+        // transition divisor: (x^n - 1) over the product of (x - g^step) for the last k (exempt) steps
+        let mut exempt = E::ONE;
+        for step in (n - self.exemptions)..n {
+            exempt *= x - E::from(self.g.exp((step as u64).into()));
+        }
+        let z_t = (x.exp((n as u64).into()) - E::ONE) / exempt;
         let mut acc = (self.alpha[0] * c[0] + self.alpha[1] * c[1] + self.alpha[2] * c[2]) / z_t;
         for (j, s) in self.specs_sorted.iter().enumerate() {
             let m = if s.stride == 0 { 1 } else { n / s.stride };
@@ -239,9 +252,12 @@ impl<B: Base, E: FieldElement<BaseField = B>> Instance<B, E> {
 }
 
 fn run<B: Base, E: FieldElement<BaseField = B>>(field: &str, ext: FieldExtension, rng: &mut Rng, cases: &mut u64) {
-    for n in [16usize, 64, 512] {
+    // 1 exemption (the default) on every trace length; 2, 3 and 4 exemptions (more than the highest constraint degree, which
+    // changes the number of composition columns) on the two smaller ones
+    for (n, k) in [(16usize, 1usize), (64, 1), (512, 1), (16, 2), (16, 3), (64, 3), (64, 4)] {
+        EXEMPTIONS.with(|e| e.set(k));
         for lde_blowup in [8usize, 16] {
-            let ctx = format!("field={field} trace_len={n} lde_blowup={lde_blowup}");
+            let ctx = format!("field={field} trace_len={n} lde_blowup={lde_blowup} exemptions={k}");
             let start = [B::from(((rng.next() >> 40) as u32) | 1), B::from(((rng.next() >> 40) as u32) | 1), B::from(((rng.next() >> 40) as u32) | 1)];
             let cols = build_trace::<B>(n, start);
             let specs = assertions_for::<B>(n, &cols);
@@ -263,7 +279,7 @@ fn run<B: Base, E: FieldElement<BaseField = B>>(field: &str, ext: FieldExtension
             // (stride, first step, column)
             let mut sorted = specs.clone();
             sorted.sort_by_key(|s| (s.stride, s.first, s.col));
-            let inst = Instance::<B, E> { n, g: B::get_root_of_unity(n.ilog2()), polys: main.interpolate_columns().into_columns(), specs_sorted: sorted, alpha, beta };
+            let inst = Instance::<B, E> { exemptions: EXEMPTIONS.with(|e| e.get()), n, g: B::get_root_of_unity(n.ilog2()), polys: main.interpolate_columns().into_columns(), specs_sorted: sorted, alpha, beta };
             let evaluations = trace.into_inner();
             let ce_size = evaluations.len();
             if ce_size != domain.ce_domain_size() {
